@@ -186,6 +186,8 @@ package keeper
 
 //@ func (Keeper) SetParams
 //@   ensures err == nil ==> Params == Some(params) && card(Validators) <= params.MaxValidators && params.MaxValidators != 0    // C13: max_validators_not_below_current
+//@   ensures err == nil ==> addrOK(1, params.Admin) && decCoinsValid(params.MinGasPrices) && (forall j int :: 0 <= j && j < len(params.BridgeExecutors) ==> addrOK(1, params.BridgeExecutors[j]))
+//@        && (forall j int :: 0 <= j && j < len(params.FeeWhitelist) ==> addrOK(1, params.FeeWhitelist[j]) && len(params.FeeWhitelist[j]) > 0)   // C20,C12: stored_params_are_validated (INV_PARAMS holds after every SetParams)
 //@   assigns Params
 
 //@ func (MsgServer) UpdateParams
